@@ -6,6 +6,7 @@ use serde_json::Value as J;
 pub mod targets;
 pub mod c02;
 pub mod c03;
+pub mod c04;
 pub mod c05;
 pub mod c06;
 pub mod c07;
@@ -27,6 +28,7 @@ pub fn run(ctx: &Ctx) -> bool {
     match ctx.id.as_str() {
         "C02" => c02::run(ctx),
         "C03" => c03::run(ctx),
+        "C04" => c04::run(ctx),
         "C05" => c05::run(ctx),
         "C06" => c06::run(ctx),
         "C07" => c07::run(ctx),
@@ -45,6 +47,7 @@ pub fn replay(ctx: &Ctx, id: &str, kind: &str, case: &J) -> Vec<Fail> {
     match id {
         "C02" => c02::replay(ctx, kind, case),
         "C03" => c03::replay(ctx, kind, case),
+        "C04" => c04::replay(ctx, kind, case),
         "C05" => c05::replay(ctx, kind, case),
         "C06" => c06::replay(ctx, kind, case),
         "C07" => c07::replay(ctx, kind, case),
